@@ -9,8 +9,12 @@ claim("C20", "exploration",
   "Seeded search over interleavings at synchronisation points (which task runs, which waiter a Signal wakes, which pooled object Get returns), histories checked by porcupine and direct exactly-once/order/drain oracles, lost wake-ups found as kernel-level deadlocks; the same seeds re-run with -race where the scheduler's hand-offs are invisible to the detector.",
   "Interleavings are explored at park points (sync/IO operations), not between plain memory accesses; that gap is what the race build covers. porcupine time-outs are counted as unknown, never reported.",
   "DESIGN.md 5 C20")
+claim("C09", "exploration",
+  "deterministic fault injection on the reader/writer seams: fragmenting reader (exhaustive for short documents), reader failure at every byte offset, writer failure at every offset (sticky and transient), differential oracle against contiguous delivery; simulated link cut at byte offsets with the real Conn/RCONConn/nbt.Decoder reading",
+  "Operations and documents are sampled by seed; for each sampled (operation, document) the fault offsets are enumerated exhaustively (every reader offset, every writer offset) and fragmentations exhaustively for documents up to 11 bytes. Oracle: same value, byte count and residual stream as the contiguous run; any failure before the document is complete must surface as a non-nil error.",
+  "Readers never return (0,nil) for a non-empty buffer and writers never return n<len with nil error (io contracts). A baseline that fails on contiguous delivery is skipped. Map-backed values are encoded only with one key per level because Go map iteration order is not controllable.",
+  "DESIGN.md 5 C09")
 PENDING.update({
- "C09": "claimed in DESIGN.md; check under construction (not yet registered)",
  "C10": "claimed in DESIGN.md; check under construction (not yet registered)",
  "C14": "claimed in DESIGN.md; check under construction (not yet registered)",
  "C15": "claimed in DESIGN.md; check under construction (not yet registered)",
